@@ -59,6 +59,42 @@ class _Abort(BaseException):
     """Stops Hypothesis once the shrinking budget is spent (the best failure so far is kept)."""
 
 
+class CaseTimeout(Exception):
+    """One generated case did not return within the watchdog limit (cases normally take milliseconds to a few seconds)."""
+
+
+WATCHDOG_S = {"quick": 600, "thorough": 1800}
+_WATCH = {"tier": "quick", "as_violation": False}
+
+
+def guarded(oracle, case):
+    """Runs oracle(case) under a wall-clock watchdog (each shard is the main thread of its own process). A code change that
+    makes a fit loop endless would otherwise hang the check for ever. For the properties that state termination (C04, C07:
+    modules with TERMINATION_IS_PROPERTY) exceeding the limit is reported as a violation of that clause - the limit is two
+    to three orders of magnitude above the slowest legitimate case; elsewhere it is a harness error (inconclusive, exit 2)."""
+    import signal
+    limit = WATCHDOG_S[_WATCH["tier"]]
+
+    def on_alarm(signum, frame):
+        raise CaseTimeout(f"the case did not return within {limit} s")
+
+    try:
+        old = signal.signal(signal.SIGALRM, on_alarm)
+    except ValueError:  # not in the main thread
+        return oracle(case)
+    signal.alarm(limit)
+    try:
+        return oracle(case)
+    except CaseTimeout as e:
+        if _WATCH["as_violation"]:
+            raise Violation(f"{e}: a call of fit / path / predict does not terminate (cases of this sub-check normally take "
+                            f"at most a few seconds); case {json.dumps(jsonable(case))[:600]}")
+        raise
+    finally:
+        signal.alarm(0)
+        signal.signal(signal.SIGALRM, old)
+
+
 # ----------------------------------------------------------------------------------------------
 # known findings
 
@@ -207,6 +243,7 @@ def run_sub_shard(args):
         mod = importlib.import_module(modname)
         sub = {s.name: s for s in mod.subs()}[subname]
         _scale(mod, [sub])
+        _WATCH["tier"], _WATCH["as_violation"] = tier, bool(getattr(mod, "TERMINATION_IS_PROPERTY", False))
         # the code under test may print (verbose=True is a hyper-parameter like any other): its stdout is discarded
         with open(os.devnull, "w") as devnull, contextlib.redirect_stdout(devnull):
             if sub.plain is not None:
@@ -228,7 +265,7 @@ def _run_plain(sub, rep, tier, seed, shard, nshards):
         if i % nshards != shard:
             continue
         try:
-            info = sub.oracle(case)
+            info = guarded(sub.oracle, case)
         except KnownFinding as k:
             rep["known"][k.fid] = rep["known"].get(k.fid, 0) + 1
             rep["known_msg_" + k.fid] = k.msg
@@ -304,7 +341,7 @@ def _run_hypothesis(sub, rep, tier, seed, shard, nshards):
         if state["first_fail_t"] is not None and time.time() - state["first_fail_t"] > shrink_budget:
             raise _Abort()
         try:
-            info = sub.oracle(case)
+            info = guarded(sub.oracle, case)
         except KnownFinding as k:
             rep["known"][k.fid] = rep["known"].get(k.fid, 0) + 1
             rep["known_msg_" + k.fid] = k.msg
